@@ -19,6 +19,8 @@ pub enum BOp {
     AddName(String),
     Add { dc: u32, sl: u32, sc: u32, src: Option<String>, name: Option<String>, range: bool },
     /// ids are selectors mapped onto the ids valid at that point
+    /// `add_token` with a token of another (one-token) map whose source and name sit at index 0
+    AddToken { dc: u32, sl: u32, sc: u32, src: Option<String>, name: Option<String>, with_name: bool },
     AddRaw { dc: u32, sl: u32, sc: u32, src: Option<u16>, name: Option<u16>, range: bool },
     SetSourceContents(u16, Option<String>),
     AddToIgnoreList(u32),
@@ -162,6 +164,37 @@ fn check(c: &Case, obs: &mut Obs) -> Verdict {
                         return Err(format!("add returned a raw token with different coordinates: {raw:?}"));
                     }
                     m.tokens.push((line, *dc, *sl, *sc, src.clone(), name.clone(), *range));
+                }
+                BOp::AddToken { dc, sl, sc, src, name, with_name } => {
+                    // a map of its own for every call: the token's source and name ids are always 0
+                    let name = if src.is_some() { name.clone() } else { None };
+                    let other = sourcemap::SourceMap::new(
+                        None,
+                        vec![sourcemap::RawToken {
+                            dst_line: line,
+                            dst_col: *dc,
+                            src_line: *sl,
+                            src_col: *sc,
+                            src_id: if src.is_some() { 0 } else { !0 },
+                            name_id: if name.is_some() { 0 } else { !0 },
+                            is_range: false,
+                        }],
+                        name.iter().map(|n| std::sync::Arc::<str>::from(n.as_str())).collect(),
+                        src.iter().map(|s| std::sync::Arc::<str>::from(s.as_str())).collect(),
+                        None,
+                    );
+                    let tok = other.get_token(0).ok_or("one-token map has no token")?;
+                    let kept = if *with_name { name.clone() } else { None };
+                    let ws = src.as_ref().map(|s| intern(&mut m.sources, s));
+                    let wn = kept.as_ref().map(|s| intern(&mut m.names, s));
+                    let raw = b.add_token(&tok, *with_name);
+                    if raw.src_id != ws.unwrap_or(!0) || raw.name_id != wn.unwrap_or(!0) {
+                        return Err(format!(
+                            "add_token(token with source {src:?} name {name:?}, with_name={with_name}) returned ids ({}, {}), the model says ({:?}, {:?})",
+                            raw.src_id, raw.name_id, ws, wn
+                        ));
+                    }
+                    m.tokens.push((line, *dc, *sl, *sc, src.clone(), kept, false));
                 }
                 BOp::AddRaw { dc, sl, sc, src, name, range } => {
                     let sid = pick_id(*src, m.sources.len());
@@ -399,6 +432,8 @@ fn bop() -> BoxedStrategy<BOp> {
             .prop_map(|(dc, sl, sc, src, name, range, keep)| BOp::Add { dc, sl, sc, name: if src.is_some() || keep == 0 { name } else { None }, src, range }),
         3 => (0u32..50, small_or_edge(), small_or_edge(), proptest::option::weighted(0.8, any::<u16>()), proptest::option::of(any::<u16>()), any::<bool>())
             .prop_map(|(dc, sl, sc, src, name, range)| BOp::AddRaw { dc, sl, sc, src, name, range }),
+        2 => (0u32..50, small_or_edge(), small_or_edge(), proptest::option::weighted(0.85, src_string()), proptest::option::of(name_string()), any::<bool>())
+            .prop_map(|(dc, sl, sc, src, name, with_name)| BOp::AddToken { dc, sl, sc, src, name, with_name }),
         3 => (any::<u16>(), content_opt()).prop_map(|(i, t)| BOp::SetSourceContents(i, t)),
         1 => (0u32..8).prop_map(BOp::AddToIgnoreList),
         1 => root_opt().prop_map(BOp::SetSourceRoot),
